@@ -180,8 +180,10 @@ type flow struct {
 	ev    []event
 }
 
+// other draws the far-end address of a flow.  It can never coincide with a subscriber address nor with
+// a byte-reversed one: genIP yields neither a first octet 9 nor a first octet above 223.
 func other(rt *rapid.T, label string) [4]byte {
-	return [4]byte{8, byte(rapid.IntRange(0, 255).Draw(rt, label+".1")), byte(rapid.IntRange(0, 255).Draw(rt, label+".2")), byte(rapid.IntRange(1, 254).Draw(rt, label+".3"))}
+	return [4]byte{9, byte(rapid.IntRange(0, 255).Draw(rt, label+".1")), byte(rapid.IntRange(0, 255).Draw(rt, label+".2")), 250}
 }
 
 // setup installs subs, syncs, locates and validates every bucket.  Returns the flows (2 per subscriber).
